@@ -1,4 +1,5 @@
 import XvcIgnore.WalkLemmas
+import XvcIgnore.PStep
 /-!
   # C09 — Ignore rules pick the same files on every run and act only below their directory
 
@@ -148,6 +149,46 @@ example : (walkSpec (.node "*.log\n".toList ["f.txt".toList, ".xvcignore".toList
       [("a".toList, .node [] ["y".toList] []), ("b".toList, .node [] ["x.bak".toList, "n.txt".toList] [])])) := by
   decide
 
+def exTiny : Tree := .node "g\n".toList ["f".toList, "g".toList] []
+
+def exTree' : Tree :=
+  .node "*.log\n".toList [".xvcignore".toList, "f.txt".toList, "r.log".toList]
+    [("a".toList, .node "x.bak\n".toList [".xvcignore".toList, "x.bak".toList, "y".toList] []),
+     ("b".toList, .node [] ["x.bak".toList, "n.txt".toList] [("c".toList, .node [] ["x.bak".toList] [])])]
+
+/-! ## every schedule of the walker transition system -/
+
+/-- **Every interleaving.**  `PStep` (PStep.lean) lets any thread start any queued directory and check
+    any unchecked child of any started directory at any time, each check seeing whatever has been
+    loaded by then.  For every well-formed tree (`TreeOk`: names are non-empty, contain no `/` and none
+    of `* ? [ \`, entries of one directory have distinct names) every state reachable from the initial
+    one has emitted only paths of `walkSpec`, and every *complete* run has emitted exactly `walkSpec`:
+    `walk_parallel` under all schedules of its threads and `walk_serial` under all `read_dir` orders
+    pick the same set of paths.  No assumption about `extra` is left: it is discharged by the invariant
+    of the transition system (`verdict_eq`). -/
+theorem C09_every_schedule (t : Tree) (ht : TreeOk t) (s : PState) (hr : PReach t s) :
+    (∀ p ∈ s.emitted, p ∈ walkSpec t) ∧ (s.final → ∀ p, p ∈ s.emitted ↔ p ∈ walkSpec t) := by
+  refine ⟨fun p hp => (owes_reach t ht s hr p).1 (Or.inl hp), ?_⟩
+  rintro ⟨h1, h2⟩ p
+  rw [← owes_reach t ht s hr p]
+  simp [Owes, h1, h2]
+
+/-- two complete runs of one tree — whatever their schedules — emit the same set -/
+theorem C09_two_runs_agree (t : Tree) (ht : TreeOk t) (s1 s2 : PState) (h1 : PReach t s1) (h2 : PReach t s2)
+    (f1 : s1.final) (f2 : s2.final) : ∀ p, p ∈ s1.emitted ↔ p ∈ s2.emitted := fun p => by
+  rw [(C09_every_schedule t ht s1 h1).2 f1 p, (C09_every_schedule t ht s2 h2).2 f2 p]
+
+/-- non-vacuity: the example tree is well formed, and a complete run of a small tree exists -/
+example : TreeOk exTree' ∧ ∃ s, PReach exTiny s ∧ s.final ∧ s.emitted = ["/f".toList] := by
+  refine ⟨by simp only [exTree', TreeOk, DirsOk]; decide, ?_⟩
+  let s0 := PState.init exTiny
+  have r0 : PReach exTiny s0 := .init
+  have r1 := PReach.step _ _ r0 (PStep.start s0 [] [] ⟨[], exTiny, globalRules⟩ "g\n".toList ["f".toList, "g".toList] [] rfl rfl)
+  have r2 := PReach.step _ _ r1 (PStep.file _ [] [] _ [] ["g".toList] "f".toList rfl rfl)
+  have r3 := PReach.step _ _ r2 (PStep.file _ [] [] _ [] [] "g".toList rfl rfl)
+  have r4 := PReach.step _ _ r3 (PStep.done _ [] [] _ rfl rfl rfl)
+  exact ⟨_, r4, ⟨rfl, rfl⟩, by decide⟩
+
 /-- a concrete interference: everything checked outside `/a` also sees the patterns of `a/.xvcignore` -/
 def exExtra (p : Str) : List Pattern :=
   if Under "/a".toList p then [] else [Pattern.new (.file "a".toList) "x.bak".toList, Pattern.new (.file "a".toList) "!*.txt".toList]
@@ -287,6 +328,10 @@ open Ign in
 #print axioms C09_parallel_deterministic_of_confined
 open Ign in
 #print axioms C09_parallel_deterministic
+open Ign in
+#print axioms C09_every_schedule
+open Ign in
+#print axioms C09_two_runs_agree
 open Ign in
 #print axioms C09_collect_deterministic
 open Ign in
